@@ -415,6 +415,40 @@ def suite_by_name(name):
     return next(s for s in SUITES + [PipelineSuite(), RowsSuite()] if s.name == name)
 
 
+def large_components(r):
+    """ONE connected set of many groups without a peptide of their own that cannot be separated ("complete graph" design: m shared
+    peptides, one protein per pair of them - removing peptides can only strip a protein bare): it must come back as one group, whatever
+    its size. Quick tier: 28 and 45 groups; thorough tier also 105 groups (the all-pairs cut search makes that one take most of a
+    minute). Monitor only."""
+    import itertools
+    from picked_group_fdr.grouping import RescuedSubsetGrouping
+    n = 0
+    for m in ((8, 10) if r.tier != "thorough" else (8, 10, 15)):
+        edge = [f"E_{a:02d}_{b:02d}" for a, b in itertools.combinations(range(m), 2)]
+        pil = {f"SHAREDV{'A' * (a + 1)}K": (1e-5, [f"E_{min(a, b):02d}_{max(a, b):02d}" for b in range(m) if b != a]) for a in range(m)}
+        pil["UNIQUEONEK"] = (1e-6, ["T1"])
+        pil["UNIQUETWOK"] = (1e-4, ["T2"])
+        n += 1
+        try:
+            groups = [list(g) for g in RescuedSubsetGrouping().get_rescued_protein_groups(dict(pil))]
+            with_edges = [g for g in groups if set(g) & set(edge)]
+            flat = [p for g in groups for p in g]
+            problem = None
+            if sorted(flat) != sorted(set(flat)):
+                problem = "the regrouping is not a partition"
+            elif len(with_edges) != 1 or sorted(with_edges[0]) != sorted(edge):
+                problem = (f"{len(edge)} connected groups without own peptides that cannot be separated were left in {len(with_edges)} groups "
+                           f"instead of being merged into one")
+        except Exception as e:
+            problem = f"raised {type(e).__name__}: {e}"[:160]
+        if problem:
+            r.violation("property-failure", {"suite": "large_components", "shared_peptides": m, "proteins": len(edge), "problem": problem,
+                                             "design": "one protein per pair of the m shared peptides, plus T1 / T2 with a unique peptide each"}, True,
+                        f"large_components ({len(edge)} groups in one inseparable component): {problem}")
+            break
+    return n
+
+
 def run(r: core.Runner):
     r.assumptions += [
         "networkx's minimum-node-cut search is NOT modelled: each recorded call is checked against the contract "
@@ -422,6 +456,7 @@ def run(r: core.Runner):
         "model's oracle; which admissible cut is chosen is left free",
         "10^(-x) is a tabulated oracle filled with np.power",
     ]
+    r.traces = (r.traces or 0) + large_components(r)
     s = SUITES[0]
     orig = r.violation
 
